@@ -356,7 +356,7 @@ theorem mem_writes {fresh : Bool} {nSaved n i : Nat} :
   cases fresh
   · simp only [Bool.false_eq_true, ↓reduceIte]
     split
-    · simp [List.mem_range']; omega
+    · rw [List.mem_range'_1]; omega
     · simp; omega
   · simp
 
